@@ -137,12 +137,12 @@ def _build_driver(wd, cfg='prod', has=None, extra='', name='tjdrive', wraps=(), 
         so = os.path.join(od, 'libtinyjambu.so')
         sh(f"{c['cc']} -shared -o {so} {' '.join(objs)}", check=True)
         sh(f"{c['cc']} {c['flags']} {extra} -I{REPO}/src -I{od} {VERIF}/harness/tjdrive.c {' '.join(more_src)} "
-           f"-L{od} -ltinyjambu -Wl,-rpath,{od} {wrapflags} -o {exe}", check=True)
+           f"-L{od} -ltinyjambu -Wl,-rpath,{od} {wrapflags} -pthread -o {exe}", check=True)
     else:
         ar = os.path.join(od, 'libtinyjambu.a')
         sh(f"ar rcs {ar} {' '.join(objs)}", check=True)
         sh(f"{c['cc']} {c['flags']} {extra} -I{REPO}/src -I{od} {VERIF}/harness/tjdrive.c {' '.join(more_src)} "
-           f"{ar} {wrapflags} -o {exe}", check=True)
+           f"{ar} {wrapflags} -pthread -o {exe}", check=True)
     return exe
 
 
